@@ -14,7 +14,7 @@ import (
 
 func init() {
 	register("C12",
-		"ONCE: the whole effectful body of GoBackNConn.Close, ClientConn.Close and ServerConn.Close is the closure passed to sync.Once.Do. ORDER (gbn): close(quit) dominates everything else; the FIN is attempted on the leg where the peer has not closed, with a context from context.WithTimeout(g.ctx); no path leads from cancel() to the FIN send and every path to cancel() on that leg passes it; cancel() and sendQueue.stop() dominate wg.Wait(); every ticker Stop is dominated by wg.Wait(). EXIT: every potentially unbounded wait in gbn (blocking select, bare channel send/receive, WaitGroup.Wait, transport callback) has a termination alternative: a case on a quit field / ctx.Done() / a channel the parent closes on return whose body leaves the wait, or a timer; bare sends are on buffered channels outside cycles; Waits are dominated by the close that terminates the waited goroutines; transport callbacks receive g.ctx or a context derived from it and ctx/cancel come from one context.WithCancel; Send/Recv return errors on quit; FIN receipt closes remoteClosed and returns an error; both loop wrappers call wg.Done() before an unconditional Close(). LIFE: every go statement in gbn is WaitGroup-tracked (Add before go, deferred Done, Wait in the owner's close path) or self-terminating by EXIT; every ticker/timer created is stopped on the close path (on the non-nil leg) or by a defer; a replaced ticker is stopped first. Not decided: the numeric bound on Close, what the peer observes, goroutines inside dependencies.",
+		"ONCE: the whole effectful body of GoBackNConn.Close, ClientConn.Close and ServerConn.Close is the closure passed to sync.Once.Do. ORDER (gbn): close(quit) dominates everything else; the FIN is attempted on the leg where the peer has not closed, with a context from context.WithTimeout(g.ctx); no path leads from cancel() to the FIN send and every path to cancel() on that leg passes it; cancel() and sendQueue.stop() dominate wg.Wait(); every ticker Stop is dominated by wg.Wait(). EXIT: every potentially unbounded wait in gbn (blocking select, bare channel send/receive, WaitGroup.Wait, transport callback) has a termination alternative: a case on a quit field / ctx.Done() / a channel the parent closes on return whose body leaves the wait, or a timer; bare sends are on buffered channels outside cycles; Waits are dominated by the close that terminates the waited goroutines; transport callbacks receive g.ctx or a context derived from it and ctx/cancel come from one context.WithCancel; Send/Recv return errors on quit; the mailbox transport callbacks and their reconnect helpers poll the context parameter in every loop (returning leg) and pass exactly that context on; FIN receipt closes remoteClosed and returns an error; both loop wrappers call wg.Done() before an unconditional Close(). LIFE: every go statement in gbn is WaitGroup-tracked (Add before go, deferred Done, Wait in the owner's close path) or self-terminating by EXIT; every ticker/timer created is stopped on the close path (on the non-nil leg) or by a defer; a replaced ticker is stopped first. Not decided: the numeric bound on Close, what the peer observes, goroutines inside dependencies.",
 		[]string{"sync.Once.Do runs its argument at most once and blocks concurrent callers until it returned; a closed channel is always ready; context cancellation propagates to derived contexts; the transport callbacks honour their context"},
 		runC12)
 }
@@ -104,6 +104,8 @@ func runC12(c *Checker) {
 	// goroutines" presupposes that those goroutines cannot deadlock each other or Close: the
 	// obligations of C18 (lock order, close-site idioms, races) are part of this check
 	importLayers(c, "C18")
+	// the mailbox callbacks honour the context gbn gives them (gbn.Close cancels it, then waits)
+	ruleCBCTX(c, "EXIT")
 	w := c.w
 	gclose := w.Func("(*gbn.GoBackNConn).Close")
 	conn := w.Named("gbn.GoBackNConn")
@@ -251,7 +253,26 @@ func runC12(c *Checker) {
 				"wg.Wait() can run before the queue is stopped: a send loop waiting for the resend sync is not woken")
 		}
 	}
-	c.floor("ORDER", 9)
+	// every step of the shutdown is performed on every path through the once body (the Once is spent
+	// after the first call: a step skipped by an early return is never made up for)
+	for name, x := range map[string]ssa.CallInstruction{"close(quit)": closeQuit, "cancel()": cancelCall, "sendQueue.stop()": stopQ, "wg.Wait()": wait} {
+		if x == nil {
+			continue
+		}
+		skipRet := ""
+		allInstrs(body, func(in ssa.Instruction) {
+			ret, ok := in.(*ssa.Return)
+			if !ok || ret.Block().Comment == "recover" || skipRet != "" {
+				return
+			}
+			if pathFromEntry(body, ret, func(i2 ssa.Instruction) bool { return i2 == ssa.Instruction(x) }) {
+				skipRet = w.pos(instrPos(ret))
+			}
+		})
+		c.decide(skipRet == "", "ORDER", "Close|"+name+" on every path", instrPos(x), name+" is passed on every path through the once body",
+			"the once body can return at "+skipRet+" without "+name+" (e.g. when the FIN cannot be sent): the Once is spent, so the context is never cancelled / the loops are never waited for / the tickers never stopped")
+	}
+	c.floor("ORDER", 13)
 
 	// ---- LIFE: tickers and timers ----
 	isTickerCtor := func(v ssa.Value) (string, bool) {
